@@ -194,7 +194,13 @@ pub struct RealCase {
 fn real_strat(_: &Ctx) -> BoxedStrategy<RealCase> {
     (kt_zero_cfg(2500, 12), 0usize..7, any::<bool>())
         .prop_flat_map(|(cfg, group, lj)| {
-            let shape = if lj { crate::gen::mol_shape_spec() } else { prop_oneof![crate::gen::line_shape_spec(), crate::gen::mol_shape_spec()].boxed() };
+            // hard shapes include radial polygons in a small or large unit of length (the initial cell of a shape of
+            // radius 1e-3 is shorter than the package's minimum cell length, so its length starts outside its range)
+            let scaled = (crate::gen::convex_radial(), (-4.0..3.0f64).prop_map(|e| 10f64.powf(e))).prop_map(|(s, u)| match s {
+                ShapeSpec::Radial { radii } => ShapeSpec::Radial { radii: radii.iter().map(|r| r * u).collect() },
+                other => other,
+            });
+            let shape = if lj { crate::gen::mol_shape_spec() } else { prop_oneof![4 => crate::gen::line_shape_spec(), 4 => crate::gen::mol_shape_spec(), 2 => scaled].boxed() };
             (Just(cfg), Just(group), shape, Just(lj), prop_oneof![Just(0u64), Just(2000u64), Just(6000u64)])
         })
         .prop_map(|(cfg, group, shape, lj, warm)| RealCase { cfg, group, shape, lj, warm })
